@@ -140,3 +140,12 @@ Theorem result_exactly_once_threaded_refuted :
    results_of 1 s = 1%nat /\ results_of 2 s = 0%nat /\ r_lost s = [2]) /\
   (let s := rrun true [RSubmit 1; RTake; RDie] in results_of 1 s = 0%nat /\ r_lost s = [1]).
 Proof. vm_compute. repeat split; reflexivity. Qed.
+
+(* the known defect class D16: histories in which the threaded loop exits *)
+Definition known_d16 (evs : list rev) : Prop := loop_exits evs = true.
+Theorem result_exactly_once_threaded_not_known evs id :
+  ~ known_d16 evs -> cnt id (submitted evs) = 1%nat ->
+  accounted id (rrun true evs) = 1%nat /\ r_lost (rrun true evs) = [].
+Proof.
+  intros Hk. apply result_exactly_once_threaded_running. unfold known_d16 in Hk. destruct (loop_exits evs); congruence.
+Qed.
